@@ -2,7 +2,8 @@
 
 Wraps vk.gen.problem.gen_problem (not edited) and post-processes its JSON recipes so that they stay inside the fragment a
 target language can express, while planting the constructs the properties name: adversarial identifiers, finite-decimal
-rationals, nested non-commutative numeric expressions, action costs, durative actions, timed initial literals / effects.
+rationals (decimalize / plant_decimal_counter: Real constants such as 1/10, 3/10, 7/20 that no binary float represents, in
+initial values, effect values, conditions, durations, type bounds), nested non-commutative numeric expressions, action costs, durative actions, timed initial literals / effects.
 Everything here is recipe-level (plain JSON); nothing of the library is called.
 """
 import copy
@@ -174,6 +175,120 @@ def finite_decimals(rec):
         return e
 
     return map_problem_exprs(rec, fn)
+
+
+# Real constants with a finite but non-dyadic decimal expansion (1/10, 1/5, 3/10, 7/20 = 0.35, ...): exactly the numbers a decimal
+# notation can denote and a binary float cannot - any conversion through float on either side of a round trip moves them by ~1e-17
+DECIMAL_STEPS = ["1/10", "1/5", "3/10", "7/20", "2/5", "1/20", "7/10", "1/10", "1/5", "3/10"]
+
+
+def non_dyadic_decimal(fr):
+    """fr has a finite decimal expansion and is no dyadic rational (its reduced denominator is 2^a * 5^b with b >= 1)."""
+    fr = Fraction(fr)
+    return _finite_decimal(fr) and fr.denominator % 5 == 0
+
+
+def has_non_dyadic_decimals(rec):
+    """Number of non-dyadic finite-decimal constants in the recipe's expressions (+ type bounds)."""
+    n = sum(1 for e in all_exprs(rec) if e[0] == "r" and non_dyadic_decimal(e[1]))
+    for f in rec["fluents"]:
+        t = f["type"]
+        if t != "bool" and t[0] == "real":
+            n += sum(1 for b in t[1:3] if b is not None and non_dyadic_decimal(b))
+    return n
+
+
+def decimalize(rng, rec, p_const=0.6, p_bounds=0.35, finite=False):
+    """Widen the numeric part of a recipe to non-dyadic finite-decimal Real constants.
+    * every integer fluent becomes a real fluent (same bounds), so that every numeric position takes Real constants;
+    * numeric constants of initial values / defaults, effect values, conditions, goals, metric expressions are moved (with
+      probability p_const each) by a step of DECIMAL_STEPS, keeping sign and non-zero-ness (divisors stay non-zero); initial
+      values / defaults stay inside their fluent's bounds. The steps are few and shared: values reached by adding such
+      constants a few times meet the constants conditions compare against (level >= 1/10 after 3/10 - 1/10 - 1/10);
+    * bounds of bounded real fluents are moved outwards to such constants with probability p_bounds.
+    finite: the result must keep finite decimal expansions (PDDL) - constants that have none are left alone."""
+    r = copy.deepcopy(rec)
+    bounds = {}
+    for f in r["fluents"]:
+        t = f["type"]
+        if t != "bool" and t[0] == "int":
+            f["type"] = t = ["real", None if t[1] is None else str(t[1]), None if t[2] is None else str(t[2])]
+        if t != "bool" and t[0] == "real":
+            lo, hi = (None if t[1] is None else Fraction(t[1])), (None if t[2] is None else Fraction(t[2]))
+            if (lo is not None or hi is not None) and rng.random() < p_bounds:
+                if hi is not None:
+                    hi = hi + Fraction(rng.choice(DECIMAL_STEPS))
+                if lo is not None and lo >= 1:
+                    lo = lo - Fraction(rng.choice(DECIMAL_STEPS))
+                f["type"] = ["real", None if lo is None else str(lo), None if hi is None else str(hi)]
+            bounds[f["name"]] = (lo, hi)
+
+    def move(c, lo=None, hi=None, p=p_const):
+        c = Fraction(c)
+        if rng.random() >= p or (finite and not _finite_decimal(c)):
+            return c
+        m = abs(c)
+        steps = [Fraction(x) for x in DECIMAL_STEPS]
+        cands = [m + d for d in steps] + [m - d for d in steps if m - d > 0]
+        if c == 0:
+            cands = [Fraction(0)] + steps[:3]
+        cands = [v if c >= 0 else -v for v in cands]
+        cands = [v for v in cands if (lo is None or v >= lo) and (hi is None or v <= hi)]
+        return rng.choice(cands) if cands else c
+
+    def const(e, lo=None, hi=None, p=p_const):
+        v = move(e[1], lo, hi, p)
+        return ["i", int(v)] if v.denominator == 1 else ["r", str(v)]
+
+    def fn(e):
+        return const(e) if e[0] in ("i", "r") else e
+
+    # initial values / defaults first (inside the bounds), then everything else
+    for f in r["fluents"]:
+        d = f.get("default")
+        if d is not None and d[0] in ("i", "r") and f["name"] in bounds:
+            f["default"] = const(d, *bounds[f["name"]], p=0.75)
+    init = [[fe, (const(v, *bounds[fe[1]], p=0.75) if v[0] in ("i", "r") and fe[1] in bounds else v)] for fe, v in r.get("init", [])]
+    keep = {f["name"]: f.get("default") for f in r["fluents"]}
+    r["init"] = []
+    r = map_problem_exprs(r, fn)
+    r["init"] = init
+    for f in r["fluents"]:
+        f["default"] = keep[f["name"]]
+    return r
+
+
+def plant_decimal_counter(rng, rec):
+    """A numeric fluent that an (instantaneous) action raises / lowers by a DECIMAL_STEPS constant each time it is applied,
+    guarded by a comparison with a multiple of that step and initialised to a multiple of it: applying the action a few times
+    accumulates the constant and lands exactly on the compared value (level = 3/10; needs level >= 1/10, lowers it by 1/10)."""
+    r = copy.deepcopy(rec)
+    acts = [a for a in r["actions"] if "duration" not in a]
+    if not acts:
+        return r
+    a = rng.choice(acts)
+    written = {e["fluent"][1] for e in a["effects"]}
+    nf = [(f, fe) for f, fe in _ground_num_fluents(rng, r, a["params"]) if f["name"] not in written]
+    if not nf:
+        return r
+    f, fe = rng.choice(nf)
+    step = Fraction(rng.choice(DECIMAL_STEPS))
+    k = rng.choice([2, 3, 3, 4])
+    lo = None if f["type"][1] is None else Fraction(f["type"][1])
+    hi = None if f["type"][2] is None else Fraction(f["type"][2])
+    kind = rng.choice(["inc", "dec"])
+    a["effects"].append({"kind": kind, "fluent": fe, "value": ["r", str(step)], "cond": None, "forall": []})
+    x = rng.random()
+    if x < 0.7:
+        # dec: applicable k times from k * step; inc: applicable until (k + 2) * step is passed
+        a["pre"] = a.get("pre", []) + [["ge", fe, ["r", str(step)]] if kind == "dec" else ["le", fe, ["r", str((k + 2) * step)]]]
+    start = k * step
+    if (lo is None or start >= lo) and (hi is None or start <= hi):
+        v = ["i", int(start)] if start.denominator == 1 else ["r", str(start)]
+        r["init"] = [[g, (v if g[1] == f["name"] else w)] for g, w in r["init"]]
+        if f.get("default") is not None:
+            f["default"] = v
+    return r
 
 
 def no_minus_no_negatives(rec):
@@ -423,7 +538,7 @@ def plant_nested_numeric(rng, rec, minus=True, decimals=True, prefer=None):
 
 
 # ---- temporal part --------------------------------------------------------------------------------------------------------
-DUR_CONST = [["i", 1], ["i", 2], ["i", 3], ["r", "1/2"], ["r", "5/2"], ["i", 5], ["r", "3/4"]]
+DUR_CONST = [["i", 1], ["i", 2], ["i", 3], ["r", "1/2"], ["r", "5/2"], ["i", 5], ["r", "3/4"], ["r", "3/10"], ["r", "27/10"]]
 
 
 def durativize(rng, rec, lang="pddl", p=0.7, ice=0.0, form=None, cond_form=None):
@@ -548,7 +663,7 @@ def add_timed_effects(rng, rec, n=2, numeric=True):
             eff = {"kind": "assign", "fluent": fe, "value": ["b", rng.random() < 0.5], "cond": None, "forall": []}
         else:
             kind = rng.choice(["assign", "inc", "dec"])
-            v = ["i", rng.choice([1, 2, 3])] if f["type"][0] == "int" else rng.choice([["i", 2], ["r", "1/2"], ["r", "5/4"]])
+            v = ["i", rng.choice([1, 2, 3])] if f["type"][0] == "int" else rng.choice([["i", 2], ["r", "1/2"], ["r", "5/4"], ["r", "1/10"], ["r", "7/20"]])
             eff = {"kind": kind, "fluent": fe, "value": v, "cond": None, "forall": []}
         tes.append([t, eff])
     r["timed_effects"] = tes
@@ -622,6 +737,11 @@ def gen_pddl_case(rng, idx=None):
     rec = closed_world_booleans(rec)
     rec = finite_decimals(rec)
     rec = nonconstant_goals(rng, rec)
+    decimals = (rng.random() < 0.4) if idx is None else idx % 2 == 1
+    if decimals:
+        rec = decimalize(rng, rec, p_bounds=0.0, finite=True)
+        if rng.random() < 0.7:
+            rec = plant_decimal_counter(rng, rec)
     has_dur = False
     if variant == "temporal":
         rec, has_dur = durativize(rng, rec, "pddl", form=None if idx is None else DURATION_FORMS[(idx // len(PDDL_VARIANT_CYCLE)) % len(DURATION_FORMS)])
@@ -648,7 +768,7 @@ def gen_pddl_case(rng, idx=None):
         rec = rename_params(rng, rec)
     # the writer's documented `empty_preconditions` flag prints `:precondition ()` for actions without preconditions
     empty_pre = rng.random() < (0.3 if not clean else 0.0)
-    return rec, {"variant": variant, "rewrite": rewrite, "adversarial": adversarial, "features": feats, "durative": has_dur, "empty_pre": empty_pre}
+    return rec, {"variant": variant, "rewrite": rewrite, "adversarial": adversarial, "features": feats, "durative": has_dur, "empty_pre": empty_pre, "decimals": decimals}
 
 
 def anml_friendly_bounds(rec):
@@ -724,6 +844,12 @@ def gen_anml_case(rng, idx=None):
     rec = nonconstant_goals(rng, rec)
     if rng.random() < 0.8:
         rec = anml_friendly_bounds(rec)
+    decimals = (rng.random() < 0.5) if idx is None else idx % 2 == 1
+    if decimals:
+        # Real constants with finite non-dyadic decimal expansions in initial values, effect values, conditions, type bounds
+        rec = decimalize(rng, rec)
+        if rng.random() < 0.7:
+            rec = plant_decimal_counter(rng, rec)
     has_dur = False
     if variant == "temporal":
         rec, has_dur = durativize(
@@ -737,7 +863,7 @@ def gen_anml_case(rng, idx=None):
         rec = plant_nested_numeric(rng, rec, prefer=None if idx is None else ["minus", "div", None][idx % 3])
     if adversarial:
         rec = rename_params(rng, rec)
-    return rec, {"variant": variant, "adversarial": adversarial, "features": feats, "durative": has_dur}
+    return rec, {"variant": variant, "adversarial": adversarial, "features": feats, "durative": has_dur, "decimals": decimals}
 
 
 # ---- known traps of the third-party `pddl` parser (behind the AI-planning reader) ----------------------------------------
